@@ -778,6 +778,62 @@ func isAggregationFunction(expr string) bool {
 	return false
 }
 
+// stripEnclosingParens removes pairs of parentheses that enclose the whole text: "((sum(x)))" -> "sum(x)".
+// "(a) + (b)" is left alone, and so is text whose quotes or parentheses do not balance.
+func stripEnclosingParens(expr string) string {
+	for {
+		t := strings.TrimSpace(expr)
+		if len(t) < 2 || t[0] != '(' || t[len(t)-1] != ')' {
+			return expr
+		}
+		depth, quote := 0, byte(0)
+		for i := 0; i < len(t); i++ {
+			ch := t[i]
+			if quote != 0 {
+				if ch == quote {
+					quote = 0
+				}
+				continue
+			}
+			switch ch {
+			case '\'', '"', '`':
+				quote = ch
+			case '(':
+				depth++
+			case ')':
+				depth--
+				if depth == 0 && i != len(t)-1 {
+					return expr
+				}
+			}
+		}
+		if depth != 0 || quote != 0 {
+			return expr
+		}
+		expr = t[1 : len(t)-1]
+	}
+}
+
+// isSingleAggregateCall reports whether the text is one call of a registered aggregate, analytical or
+// window function and nothing else: "sum(x)" and "percentile(x, 0.5)", not "sum(x) + 1".
+func isSingleAggregateCall(expr string) bool {
+	name := extractFunctionName(expr)
+	if name == "" {
+		return false
+	}
+	fn, ok := functions.Get(name)
+	if !ok {
+		return false
+	}
+	switch fn.GetType() {
+	case functions.TypeAggregation, functions.TypeAnalytical, functions.TypeWindow:
+	default:
+		return false
+	}
+	rest := strings.TrimSpace(strings.TrimSpace(expr)[len(name):])
+	return strings.HasPrefix(rest, "(") && stripEnclosingParens(rest) != rest
+}
+
 // isScalarFunctionItem reports whether a SELECT item is a call of a registered scalar (non-aggregate) function.
 // For such an item the name ParseAggregateTypeWithExpression returns is the function's first input column, not an
 // output name: upper(a) written without AS is called upper(a), not a.
@@ -1492,6 +1548,11 @@ func buildSelectFieldsWithExpressions(fields []Field) (
 			} else {
 				alias = f.Expression
 			}
+		}
+
+		// (sum(x)) is sum(x): parentheses around a bare aggregate call do not change what it is
+		if inner := stripEnclosingParens(f.Expression); inner != f.Expression && isSingleAggregateCall(inner) {
+			f.Expression = inner
 		}
 
 		// Check if this is a complex aggregation expression
